@@ -11,10 +11,6 @@
 import Cellml.Gen.Grammar
 namespace Cellml.Gen
 
-def isNul : Ast → Bool
-  | .nul => true
-  | _ => false
-
 /-- where a node stands: an expression, or one of the qualifier / piece positions -/
 inductive Ctx | expr | degree | logbase | piece | last
   deriving DecidableEq, Repr
